@@ -250,10 +250,16 @@ def stereo_mol_graph_to_rdmol(
             rd_atom.SetChiralTag(Chem.ChiralType.CHI_TRIGONALBIPYRAMIDAL)
             if a_stereo.parity is not None:
 
-                atoms_order = (a_stereo._inverted_atoms()
-                               if a_stereo.parity == -1 else a_stereo.atoms)
-                rd_id_order = tuple([map_num_idx_dict[a]
-                                     for a in atoms_order[1::]])
+                # In TB1 order (axis from the first to the last neighbor,
+                # the others anticlockwise) the parity is -1, as in the
+                # import from rdkit. All rotations of the bipyramid have to
+                # be considered.
+                tb1_stereo = (a_stereo if a_stereo.parity == -1 else
+                              TrigonalBipyramidal(a_stereo._inverted_atoms(),
+                                                  -1))
+                rd_id_orders = {
+                    tuple([map_num_idx_dict[a] for a in atoms_order[1::]])
+                    for atoms_order in tb1_stereo._perm_atoms()}
                 rd_nbr_order = tuple([nbr.GetIdx() for nbr in rd_atom.GetNeighbors()])
                 
                         # adapted from http://opensmiles.org/opensmiles.html
@@ -285,7 +291,7 @@ def stereo_mol_graph_to_rdmol(
                     rd_nbr_perm = tuple([rd_nbr_order[i] for i in perm])
                     rd_nbr_perm = tuple([rd_nbr_perm[i] for i in (0, 4, 1, 2, 3)])
 
-                    if rd_id_order == rd_nbr_perm:
+                    if rd_nbr_perm in rd_id_orders:
                         rd_atom.SetUnsignedProp("_chiralPermutation", val)
                         break
 
